@@ -121,6 +121,73 @@ pub fn gen_message(rng: &mut Rng, len: usize) -> Vec<u8> {
     out
 }
 
+/// Application-structured content with its own integrity fields (round 24): what real labels carry. A GS1 element
+/// string (FNC1 start; AI 01 + GTIN-14 with a correct mod-10 check digit, then expiry date, lot, serial number
+/// separated by GS), a bare GTIN / SSCC with check digit, a Luhn-checked number, a URL. Whatever takes such a field
+/// for proof that the scan needs no error correction is wrong about the rest of the message. Returns (message, FNC1 start).
+pub fn gen_structured_message(rng: &mut Rng, len: usize) -> (Vec<u8>, bool) {
+    fn digits(rng: &mut Rng, n: usize) -> Vec<u8> {
+        (0..n).map(|_| b'0' + rng.below(10) as u8).collect()
+    }
+    fn gs1_check(body: &[u8]) -> u8 {
+        // weights 3, 1, 3, ... counted from the RIGHT end of the body
+        let sum: usize = body.iter().rev().enumerate().map(|(i, d)| (*d - b'0') as usize * if i % 2 == 0 { 3 } else { 1 }).sum();
+        b'0' + ((10 - sum % 10) % 10) as u8
+    }
+    let mut out: Vec<u8> = Vec::new();
+    match rng.below(6) {
+        0..=2 => {
+            out.extend_from_slice(b"01");
+            let body = digits(rng, 13);
+            out.extend_from_slice(&body);
+            out.push(gs1_check(&body));
+            if len > 24 {
+                out.extend_from_slice(b"17");
+                out.extend_from_slice(&[b'2', b'0' + rng.range(4, 9) as u8, b'0' + rng.below(2) as u8, b'1' + rng.below(2) as u8, b'0' + rng.below(3) as u8, b'1' + rng.below(8) as u8]);
+            }
+            if len > 30 {
+                out.extend_from_slice(b"10");
+                for _ in 0..rng.range(1, 12.min(len - 28)) {
+                    out.push(*rng.pick(ALPHA_UPPER));
+                }
+            }
+            if len > 50 {
+                out.push(0x1D);
+                out.extend_from_slice(b"21");
+                let nser = rng.range(1, 12);
+                out.extend_from_slice(&digits(rng, nser));
+            }
+            (out, true)
+        }
+        3 => {
+            // SSCC-18 under AI 00
+            out.extend_from_slice(b"00");
+            let body = digits(rng, 17);
+            out.extend_from_slice(&body);
+            out.push(gs1_check(&body));
+            (out, true)
+        }
+        4 => {
+            // a Luhn-checked number (payment card layout), plain ASCII digits
+            let mut body = digits(rng, 15);
+            let sum: usize = body.iter().rev().enumerate().map(|(i, d)| { let v = (*d - b'0') as usize; if i % 2 == 0 { let w = v * 2; if w > 9 { w - 9 } else { w } } else { v } }).sum();
+            body.push(b'0' + ((10 - sum % 10) % 10) as u8);
+            (body, false)
+        }
+        _ => {
+            out.extend_from_slice(b"https://");
+            for _ in 0..rng.range(3, 12) {
+                out.push(*rng.pick(ALPHA_LOWER));
+            }
+            out.extend_from_slice(b".example/01/");
+            let body = digits(rng, 13);
+            out.extend_from_slice(&body);
+            out.push(gs1_check(&body));
+            (out, false)
+        }
+    }
+}
+
 fn rough_capacity(s: &SizeInfo) -> usize {
     // bytes that surely fit with Base256; digits pack 2:1, C40-like 3:2
     s.n_data.saturating_sub(3).max(1)
@@ -150,10 +217,11 @@ fn msg_producer_for_size(rng: &mut Rng, s: &SizeInfo, eci: Option<u32>) -> Produ
 fn msg_producer_for_size_d(rng: &mut Rng, s: &SizeInfo, eci: Option<u32>) -> (Producer, Vec<u8>) {
     let cap = rough_capacity(s);
     let fill = rng.range(1, 2 * cap);
-    let mut msg = gen_message(rng, fill);
+    let structured = eci.is_none() && rng.chance(1, 6);
+    let (mut msg, fnc1_structured) = if structured { gen_structured_message(rng, fill) } else { (gen_message(rng, fill), false) };
     let modes = if rng.chance(3, 4) { 0x3F } else { (rng.range(1, 0x3F) as u8) | 1 };
     let macros = rng.chance(3, 4);
-    let fnc1 = rng.chance(1, 8);
+    let fnc1 = if structured { fnc1_structured } else { rng.chance(1, 8) };
     for _ in 0..5 {
         match produce_msg(&msg, &ListSpec::Single(s.idx), modes, macros, fnc1, eci) {
             Ok(Some((_, data, _))) => {
@@ -514,6 +582,55 @@ fn burst_faults(rng: &mut Rng, s: &SizeInfo, budget: Option<usize>, faults: &mut
         per_block[b] += 1;
         faults.push(value_fault(rng, vk, Some("cw_burst"), p));
     }
+}
+
+/// Periodic damage in transmission order (round 24): the same wrong value - or the same XOR mask - at positions
+/// p, p + P, p + 2P, ... of the interleaved codeword stream: a repeating print defect, a dead sensor column. The
+/// periods are the ones arithmetic cares about: 255 (the order of alpha: x^p and x^(p+255) evaluate alike at every
+/// field element, so anything that evaluates the interleaved stream as ONE polynomial sees equal masks cancel),
+/// its divisors, the powers of two, the block count times small numbers. Within `budget` errors per block if given.
+fn periodic_faults(rng: &mut Rng, s: &SizeInfo, budget: Option<usize>, faults: &mut Vec<Fault>) -> bool {
+    let n = s.n_total();
+    const PERIODS: [usize; 12] = [255, 255, 255, 510, 85, 51, 17, 256, 128, 64, 254, 127];
+    let mut period = *rng.pick(&PERIODS);
+    if rng.chance(1, 6) {
+        period = s.blocks * rng.range(1, 40) + if rng.chance(1, 2) { 1 } else { 0 };
+    }
+    if period == 0 || period >= n {
+        return false;
+    }
+    let trains = rng.range(1, 3);
+    let mut per_block = vec![0usize; s.blocks];
+    let mut used: Vec<usize> = Vec::new();
+    for _ in 0..trains {
+        let start = rng.below(period.min(n));
+        let max_len = (n - 1 - start) / period + 1;
+        let len = if rng.chance(1, 2) { 2.min(max_len) } else { rng.range(1, max_len) };
+        let first = rng.below(max_len - len + 1);
+        let same_mask = !rng.chance(1, 5);
+        let mask = rng.nonzero_byte();
+        let set_val: Option<u8> = if rng.chance(1, 6) { Some(*rng.pick(&[0u8, 0xFF, 129])) } else { None };
+        for i in first..first + len {
+            let p = start + i * period;
+            let b = s.block_of(p);
+            if used.contains(&p) {
+                continue;
+            }
+            if let Some(t) = budget {
+                if per_block[b] >= t {
+                    continue;
+                }
+            }
+            per_block[b] += 1;
+            used.push(p);
+            let op = match set_val {
+                Some(v) => Op::CwSet { pos: p as u32, val: v },
+                None => Op::CwXor { pos: p as u32, mask: if same_mask { mask } else { rng.nonzero_byte() } },
+            };
+            faults.push(Fault::new("cw_burst", op));
+        }
+    }
+    !faults.is_empty()
 }
 
 /// Errors inside the radius whose values are solved so that the syndromes take a
@@ -904,6 +1021,8 @@ fn syndrome_faults(ctx: &Ctx, rng: &mut Rng, s: &SizeInfo, b: usize, faults: &mu
     // order of the recurrence: usually below t, sometimes t, t+1 or t+2
     let v = if flavour == 19 { rng.range(t, (t + 2).min(k - 1)) } else if rng.chance(1, 5) { rng.range(1, 2.min(t - 1)) } else { rng.range(1, t - 1) };
     let mut syn: Vec<u8>;
+    // (0-based start, length) of a window of the genuine pattern's own syndromes that was solved to vanish
+    let mut own_zero: Option<(usize, usize)> = None;
     let mut poly: Vec<u8>; // x^v + p_{v-1} x^{v-1} + ... + p_0, highest degree first
     if flavour >= 16 {
         // an arbitrary linear recurrence. Either random taps (the "locator" may have roots outside the
@@ -966,25 +1085,36 @@ fn syndrome_faults(ctx: &Ctx, rng: &mut Rng, s: &SizeInfo, b: usize, faults: &mu
         }
         let v = xs.len();
         let mut ys: Vec<u8> = (0..v).map(|_| rng.nonzero_byte()).collect();
-        if v >= 2 && rng.chance(1, 4) {
+        if v >= 2 && rng.chance(1, 3) {
             // the genuine pattern's own leading syndromes vanish (values solved for): the decoder starts at a higher
             // order, and whatever it derives from the COUNT of leading zeros meets a crafted tail as well
-            let z = rng.range(1, (v - 1).min(4));
+            let z = if rng.chance(1, 2) { (v - 1).min(4) } else { rng.range(1, (v - 1).min(4)) };
+            // (round 24) ... or a window of its syndromes ANYWHERE vanishes - S_a0 .. S_(a0+z-1), preferably where
+            // the decoder's acceptance rows live (from t on): a test that takes "these entries are zero" for "this
+            // row is trivially satisfied" meets a row that is not
+            let a0 = if rng.chance(1, 2) || k < z + 1 {
+                1
+            } else if rng.chance(2, 3) && t + 1 <= k - z + 1 {
+                rng.range(t + 1, k - z + 1)
+            } else {
+                rng.range(1, k - z + 1)
+            };
             let mut a = vec![0u8; z * z];
             let mut rhs = vec![0u8; z];
             for j in 0..z {
                 for c in 0..z {
-                    a[j * z + c] = gf_pow(gf, xs[c], j + 1);
+                    a[j * z + c] = gf_pow(gf, xs[c], j + a0);
                 }
                 let mut acc = 0u8;
                 for c in z..v {
-                    acc ^= gf.mul(ys[c], gf_pow(gf, xs[c], j + 1));
+                    acc ^= gf.mul(ys[c], gf_pow(gf, xs[c], j + a0));
                 }
                 rhs[j] = acc;
             }
             if let Some(sol) = gf.solve(&a, &rhs, z) {
                 if sol.iter().all(|x| *x != 0) {
                     ys[..z].copy_from_slice(&sol);
+                    own_zero = Some((a0 - 1, z));
                 }
             }
         }
@@ -1010,13 +1140,36 @@ fn syndrome_faults(ctx: &Ctx, rng: &mut Rng, s: &SizeInfo, b: usize, faults: &mu
     }
     let v = poly.len() - 1;
     // poly = [1, p_{v-1}, ..., p_0]; S_{j+v} = sum_{i<v} p_i S_{j+i} (char 2)
-    if rng.chance(1, 3) {
+    if rng.chance(1, 3) || (own_zero.map_or(false, |(z0, _)| z0 > 0) && rng.chance(1, 2)) {
         // overwrite some syndromes in place WITHOUT continuing the recurrence: the first / last few, or one
         // anywhere, set to zero or to a random value - the rest stays exactly the genuine pattern's
         let m = rng.range(1, 3.min(k - 1));
-        let idxs: Vec<usize> = match rng.below(4) {
-            0 | 1 => (0..m).collect(),
-            2 => (k - m..k).collect(),
+        let idxs: Vec<usize> = match (own_zero, rng.below(4)) {
+            // next to the genuine pattern's own window of zeros: one or two entries one or two places after / before it
+            // exactly one entry, one place beyond the window's neighbour: rows of the shape (0, .., 0, x, 0)
+            (Some((z0, z)), 0) if z0 + z + 1 < k => vec![z0 + z + 1],
+            (Some((z0, z)), 0..=2) => {
+                let mut c: Vec<usize> = Vec::new();
+                for d in [z0 + z, z0 + z + 1, z0 + z + 2] {
+                    if d < k {
+                        c.push(d);
+                    }
+                }
+                if z0 >= 1 {
+                    c.push(z0 - 1);
+                }
+                if z0 >= 2 {
+                    c.push(z0 - 2);
+                }
+                if c.is_empty() {
+                    vec![rng.below(k)]
+                } else {
+                    let n = rng.range(1, 2.min(c.len()));
+                    rng.sample_distinct(c.len(), n).into_iter().map(|i| c[i]).collect()
+                }
+            }
+            (_, 0 | 1) => (0..m).collect(),
+            (_, 2) => (k - m..k).collect(),
             _ => vec![rng.below(k)],
         };
         let zero = rng.chance(2, 3);
@@ -1156,9 +1309,21 @@ fn cross_block_faults(ctx: &Ctx, rng: &mut Rng, s: &SizeInfo, faults: &mut Vec<F
     let nb_min = s.block_len(s.blocks - 1);
     let v = rng.range(1, t - 1);
     let idxs = rng.sample_distinct(nb_min, v);
-    let b0 = rng.below(s.blocks - 1);
-    let n_blocks = rng.range(2, (s.blocks - b0).min(3));
-    let target = b0 + rng.range(1, n_blocks - 1).max(1).min(n_blocks - 1); // a block after the first of the group
+    // a stripe through two or three neighbouring blocks, or (round 24) through a majority / all of the symbol's blocks
+    // with the crafted block among the last: whatever lets the blocks decoded so far "vote" on the next one
+    let wide = s.blocks >= 4 && rng.chance(1, 3);
+    let (b0, n_blocks) = if wide {
+        let nb = rng.range(s.blocks / 2 + 1, s.blocks);
+        (rng.below(s.blocks - nb + 1), nb)
+    } else {
+        let b0 = rng.below(s.blocks - 1);
+        (b0, rng.range(2, (s.blocks - b0).min(3)))
+    };
+    let target = if wide && rng.chance(2, 3) {
+        b0 + n_blocks - 1
+    } else {
+        b0 + rng.range(1, n_blocks - 1).max(1).min(n_blocks - 1) // a block after the first of the group
+    };
     let shared: Option<Vec<u8>> = if rng.chance(1, 2) { Some((0..idxs.len()).map(|_| rng.nonzero_byte()).collect()) } else { None };
     for b in b0..b0 + n_blocks {
         let pos = s.block_positions(b);
@@ -2248,7 +2413,11 @@ fn geometry_fault(rng: &mut Rng, s: &SizeInfo, faults: &mut Vec<Fault>) {
                 Fault::new("geo_width_skew", Op::GeoWidth { w: nw as u32 })
             }
         }
-        8 if rng.chance(1, 4) => Fault::new("geo_frame", Op::GeoScale { k: rng.range(2, 4) as u32 }),
+        8 if rng.chance(1, 4) => {
+            // isotropic (k x k) or anisotropic (kx x ky) magnification
+            let k = if rng.chance(1, 2) { rng.range(2, 4) as u32 } else { rng.range(1, 4) as u32 + 16 * rng.range(1, 4) as u32 };
+            Fault::new("geo_frame", Op::GeoScale { k })
+        }
         8 if rng.chance(1, 3) => Fault::new("geo_frame", Op::GeoFrame { n: rng.range(1, 3) as u32, fill: rng.below(3) as u32 }),
         8 if rng.chance(1, 2) => {
             let side = rng.below(4) as u32;
@@ -2777,6 +2946,12 @@ fn beyond_radius_faults(ctx: &Ctx, rng: &mut Rng, s: &SizeInfo, faults: &mut Vec
                 burst_faults(rng, s, None, faults)
             }
         }
+        9 if rng.chance(1, 4) => {
+            // periodic damage in transmission order, not bounded by the radius
+            if !periodic_faults(rng, s, None, faults) {
+                burst_faults(rng, s, None, faults)
+            }
+        }
         9 => {
             if rng.chance(1, 2) || !toward_faults(rng, s, false, faults) {
                 burst_faults(rng, s, None, faults)
@@ -2963,7 +3138,12 @@ fn gen_c03_faults(ctx: &Ctx, rng: &mut Rng, s: &SizeInfo, faults_out: &mut Vec<F
             let w = bounded_weights(rng, s);
             weighted_cw_faults(rng, s, &w, &mut faults);
         }
-        10 => match rng.below(3) {
+        10 => match rng.below(4) {
+            3 => {
+                if !periodic_faults(rng, s, Some(s.t()), &mut faults) {
+                    burst_faults(rng, s, Some(s.t()), &mut faults)
+                }
+            }
             0 => burst_faults(rng, s, Some(s.t()), &mut faults),
             1 => {
                 if !toward_faults(rng, s, true, &mut faults) {
